@@ -97,6 +97,29 @@ RULE = {(("sm", GENERIC["after"]), "a"): (("b",), 2)}
 
 # -- oracles -------------------------------------------------------------------------------------
 
+def check_results(env, calls, idents):
+    """O8: what a sender's call returns is the result of the first event that very call
+    processed (the caller's thread drained it), built from that event's callbacks only, and
+    None when the call processed nothing (another sender's drain took the event over)."""
+    for c in calls:
+        if c.get("ret") in (None, float("inf")) or "result" not in c:
+            continue
+        mine = [r for r in env.flat if r.thread == idents.get(c["sender"]) and
+                c["inv"] < r.seq_begin < c["ret"] and r.event != "__initial__"]
+        first = mine[0].tag if mine else None
+        res = c["result"]
+        flat = res if isinstance(res, list) else [res]
+        tags = [x.rsplit("@", 1)[1] for x in flat if isinstance(x, str) and "@" in x]
+        if first is None:
+            if res is not None:
+                return (f"O8 result: the call sending {c['tag']} processed no event itself but "
+                        f"returned {res!r}")
+        elif not tags or any(t != first for t in tags):
+            return (f"O8 result: the call sending {c['tag']} processed {first} first (then "
+                    f"{[t for t in dict.fromkeys(r.tag for r in mine)][1:]}) but returned {res!r}")
+    return None
+
+
 def check(env, sm, sender_tags, errors, deadlock, init_value="s0"):
     if deadlock:
         return deadlock
@@ -378,6 +401,7 @@ def run_threads(ch, events, nested, files, only_lines=None, stateful=False):
         env = impl.env
         env.vals = {"g1": True, "v1": True}
         env.flat_mode = True
+        env.record_thread = True
         env.yield_hook = tsched.yield_point
         impl.construct()
         env.top, env.flat, env.stack = [], [], []
@@ -390,8 +414,12 @@ def run_threads(ch, events, nested, files, only_lines=None, stateful=False):
 
         progress = [0] * len(events)
 
+        idents = {}
+
         def body(i):
             def fn():
+                import threading
+                idents[i] = threading.get_ident()
                 if nested == "late-async-listener" and i == 1:
                     sm.add_listener(_AsyncOnly())
                 for k, ev in enumerate(events[i]):
@@ -405,7 +433,7 @@ def run_threads(ch, events, nested, files, only_lines=None, stateful=False):
                                      tuple(sorted(c2["tag"] for c2 in calls
                                                   if c2["ret"] is not None)))}
                     calls.append(call)
-                    sm.send(ev, tag=tags[i][k])
+                    call["result"] = sm.send(ev, tag=tags[i][k])
                     env.seq += 1
                     call["ret"] = env.seq
                 progress[i] = len(events[i])
@@ -437,6 +465,12 @@ def run_threads(ch, events, nested, files, only_lines=None, stateful=False):
         r = check_gated(env, sm, calls, s.errors, s.deadlock)
     else:
         r = check(env, sm, tags, s.errors, s.deadlock)
+    if isinstance(r, tuple) and r[0] is None and not anon and not gated:
+        # (on the gated machine an ignored event leaves no callback behind: which event a call
+        # processed first cannot be observed there)
+        r8 = check_results(env, calls, idents)
+        if r8:
+            r = r8
     return (r if isinstance(r, tuple) else (r, None)) + (s.npoints,)
 
 
